@@ -1,6 +1,6 @@
 // Command c07 decides property C07 (logger context is exact and isolated
 // across derived loggers): every derivation program up to a depth over an
-// explicit symbol set, under eight core families and several use orders, is run
+// explicit symbol set, under eleven core families and several use orders, is run
 // on the real zap code and every emitted entry is compared with a reference
 // model (concatenation of the field lists on the derivation path, dot-join of
 // the non-empty names).
@@ -29,9 +29,19 @@ type space struct {
 	syms        []symbol
 	symLabel    string
 	rootSugared bool
-	// needSep: of the sequences over syms only those that use at least one of the
-	// separator-carrying names are run (the others belong to the spaces without those names)
-	needSep bool
+	// need: of the sequences over syms only those that use at least one symbol of
+	// this class are run (the others belong to the spaces without those symbols):
+	// "sep" = a name carrying the separator, "slice" = a no-op-field argument or a reused slice
+	need string
+}
+
+func (s space) wanted(steps []step) bool {
+	for _, st := range steps {
+		if (s.need == "sep" && isSepName(st.sym)) || (s.need == "slice" && isSliceSym(st.sym)) {
+			return true
+		}
+	}
+	return s.need == ""
 }
 
 func (s space) size() int64 {
@@ -47,8 +57,11 @@ func (s space) String() string {
 	if s.rootSugared {
 		r = "sugared"
 	}
-	if s.needSep {
+	if s.need == "sep" {
 		return fmt.Sprintf("depth=%d x %d symbols (%s) x %s root: those of the %d sequences that contain >=1 name with a '.'", s.depth, len(s.syms), s.symLabel, r, s.size())
+	}
+	if s.need == "slice" {
+		return fmt.Sprintf("depth=%d x %d symbols (%s) x %s root: those of the %d sequences that contain >=1 *Skip/*NilErr/Again* symbol", s.depth, len(s.syms), s.symLabel, r, s.size())
 	}
 	return fmt.Sprintf("depth=%d x %d symbols (%s) x %s root: %d programs", s.depth, len(s.syms), s.symLabel, r, s.size())
 }
@@ -293,13 +306,13 @@ func main() {
 	// the live heap is tiny and the garbage rate is high (every derivation on an
 	// IO core takes a 1 KiB buffer out of zap's pool for good): collect less often
 	debug.SetGCPercent(800)
-	reduced8 := pick("With1", "With3", "WithNS", "WithMut", "LazyMut", "Named(a)", "Fields3", "Toggle")
-	reduced10 := pick("With1", "With3", "WithNS", "WithMut", "Lazy1", "LazyMut", "Named(a)", "Named()", "Fields3", "Toggle")
+	reduced8 := pick("With1", "With3", "WithNS", "WithSkip", "LazyMut", "Named(a)", "Fields3", "Toggle")
+	reduced10 := pick("With1", "With3", "WithNS", "WithMut", "WithSkip", "LazyMut", "Named(a)", "Named()", "Fields3", "Toggle")
 	reduced6 := pick("With1", "With3", "LazyMut", "Named(a)", "FieldsNS", "Toggle")
 	var spaces []space
 	for _, sug := range []bool{false, true} {
 		for d := 0; d <= 3; d++ {
-			spaces = append(spaces, space{d, fullSyms, "full", sug, false})
+			spaces = append(spaces, space{d, fullSyms, "full", sug, ""})
 		}
 	}
 	// names with the separator at the start / end / alone / inside: depth 1..3 (thorough: ..4), both roots
@@ -310,18 +323,29 @@ func main() {
 	}
 	for _, sug := range []bool{false, true} {
 		for d := 1; d <= nameDepth; d++ {
-			spaces = append(spaces, space{d, nameSyms, "names: " + symList(nameSyms), sug, true})
+			spaces = append(spaces, space{d, nameSyms, "names: " + symList(nameSyms), sug, "sep"})
+		}
+	}
+	// arguments with a no-op field that is not last (zap.Skip(), NamedError(k,nil)) and derivations that hand
+	// zap the same slice object again: depth 1..3 from a plain root, depth 1..2 from a sugared root (thorough: 1..3 both)
+	sliceSet := append(pick("With1", "LazyMut", "Toggle"), sliceSyms...)
+	for _, sug := range []bool{false, true} {
+		for d := 1; d <= 3; d++ {
+			if d == 3 && sug && !run.Thorough() {
+				continue
+			}
+			spaces = append(spaces, space{d, sliceSet, "slices: " + symList(sliceSet), sug, "slice"})
 		}
 	}
 	if !run.Thorough() {
-		spaces = append(spaces, space{4, reduced8, "reduced-8: " + symList(reduced8), false, false})
+		spaces = append(spaces, space{4, reduced8, "reduced-8: " + symList(reduced8), false, ""})
 	} else {
-		spaces = append(spaces, space{4, reduced10, "reduced-10: " + symList(reduced10), false, false})
-		spaces = append(spaces, space{4, reduced10, "reduced-10: " + symList(reduced10), true, false})
-		spaces = append(spaces, space{5, reduced6, "reduced-6: " + symList(reduced6), false, false})
+		spaces = append(spaces, space{4, reduced10, "reduced-10: " + symList(reduced10), false, ""})
+		spaces = append(spaces, space{4, reduced10, "reduced-10: " + symList(reduced10), true, ""})
+		spaces = append(spaces, space{5, reduced6, "reduced-6: " + symList(reduced6), false, ""})
 	}
 
-	// the two dynamic-level families run on the depth<=4 spaces in the thorough tier, on the depth<=3 spaces in the quick tier
+	// the two dynamic-level families and tee(json,json) run on the depth<=4 spaces in the thorough tier, on the depth<=3 spaces in the quick tier
 	dynMaxDepth := 3
 	if run.Thorough() {
 		dynMaxDepth = 4
@@ -357,14 +381,8 @@ func main() {
 		var sample any
 		for idx := it.lo; idx < it.hi; idx++ {
 			steps := sp.program(idx)
-			if sp.needSep {
-				has := false
-				for _, st := range steps {
-					has = has || isSepName(st.sym)
-				}
-				if !has {
-					continue
-				}
+			if !sp.wanted(steps) {
+				continue
 			}
 			nprog++
 			// reference node states of this program: (root kind, symbols along the path)
@@ -375,8 +393,14 @@ func main() {
 			}
 			local[hash64(sigs[0])] = struct{}{}
 			ctx := 0
+			lastField := "-"
 			for i, s := range steps {
 				sigs[i+1] = sigs[s.parent] + "/" + s.sym.name
+				if s.sym.arg == argAgain {
+					sigs[i+1] += "=" + lastField
+				} else if s.sym.op == opWith || s.sym.op == opWithLazy || s.sym.op == opFieldsOpt {
+					lastField = s.sym.name
+				}
 				local[hash64(sigs[i+1])] = struct{}{}
 				if s.sym.op == opWith || s.sym.op == opWithLazy || s.sym.op == opFieldsOpt {
 					ctx++
@@ -433,9 +457,15 @@ func main() {
 	for _, s := range fullSyms {
 		symNames = append(symNames, s.name)
 	}
+	for _, s := range append(append([]symbol(nil), sepNameSyms...), sliceSyms...) {
+		symNames = append(symNames, s.name+" (own space)")
+	}
 	run.Assume = []string{
 		"dynamic-level families: one AtomicLevel under the json core / under both tee branches is set to FatalLevel+1 (nothing enabled) immediately before every derive event and to Debug immediately before every log event; the oracle is exactly that of the json / tee(json,observer) family",
-		"field arguments: With1 = one Int64; With3 = Int64,String,Int64; WithNS = Namespace + Int64; WithMut = Object(mutable marshaler) + Int64; keys are unique per step; names from {\"\",\"a\",\"b\"} plus, in the 'names' spaces, {\".a\",\"a.\",\".\",\"a.b\"}; sugared With/WithLazy receive key/value pairs (the namespace as a typed Field)",
+		"field arguments: With1 = one Int64; With3 = Int64,String,Int64; WithNS = Namespace + Int64; WithMut = Object(mutable marshaler) + Int64; *Skip = zap.Skip(),Int64,Int64; *NilErr = Int64,zap.NamedError(k,nil),String (both no-op fields render nothing in json/console, an observer context keeps them as given; sugared calls pass them as typed Fields); Again* = With/WithLazy/WithOptions(Fields) called with the very slice object that was handed to the latest earlier field step (a fresh [Int64] if there is none) - the fields are the same, their marshalers are evaluated anew for the step; keys are unique per step except under Again*;",
+		"caller's-slice oracle: every []Field / []interface{} handed to With, WithLazy, WithOptions(Fields(...)), Info and Infow is compared after the call with what the caller put in (Field by Field: Key, Type, Integer, String, Interface identity; spare capacity still zero), and the derivation slices again at the end of the program (lazy cores retain them)",
+		"tee(json,json): both sinks are checked against the same reference; a marshaler is evaluated by each branch, so no evaluation count is demanded there",
+		"(continued) names from {\"\",\"a\",\"b\"} plus, in the 'names' spaces, {\".a\",\"a.\",\".\",\"a.b\"}; sugared With/WithLazy receive key/value pairs (the namespace as a typed Field)",
 		"every entry is logged at Info (enabled in every family); the sampler's budget (first=2^30 per tick) is never exhausted",
 		"evaluation time/count of marshalers is demanded only where every serialising core is a byte encoder (json, console, sampler, hooked, increase-level, lazy): With = once, at derivation; WithLazy = once, at the first log through the logger or a descendant or the first With/WithOptions(Fields) chained on it. The observer keeps the Field unevaluated: there only field identity (Field.Equals + same marshaler pointer) is compared; in tee(json,observer) the JSON branch's value is compared but not the call count",
 		"Named, Sugar, Desugar and WithLazy on a lazy logger are not a 'use' (documented: evaluated only if chained with With or written to)",
@@ -447,7 +477,7 @@ func main() {
 		"traces_validated_against_impl":      cases,
 		"evaluations":                        cases,
 		"distinct_nontrivial":                nontrivial,
-		"rule":                               "a program = root kind + sequence of (parent index among nodes so far, symbol); every program of each listed space is run under the core families (8 static ones on every space, the 2 dynamic-level ones up to dynamic_level_families_up_to_depth) x the use orders; states = distinct reference node states (root kind + symbols along the derivation path, i.e. field path and name); distinct_nontrivial = distinct programs with >=2 steps of which >=1 adds context; evaluations = (program, family, use order) cases executed",
+		"rule":                               "a program = root kind + sequence of (parent index among nodes so far, symbol); symbols = {With,WithLazy,WithOptions(Fields)} x {1 field, 3 fields, Namespace+field, mutable marshaler+field, Skip+2 fields, field+nil-error+field, the previous step's slice object again}, Named x {'','a','b','.a','a.','.','a.b'}, Sugar/Desugar; every program of each listed space is run under the core families (8 static ones on every space; the 2 dynamic-level ones and tee(json,json) up to dynamic_level_families_up_to_depth) x the use orders; states = distinct reference node states (root kind + symbols along the derivation path, i.e. field path and name); distinct_nontrivial = distinct programs with >=2 steps of which >=1 adds context; evaluations = (program, family, use order) cases executed",
 		"samples":                            samples,
 		"exhaustive":                         true,
 		"programs":                           programs,
